@@ -1380,3 +1380,171 @@ def precedence_flows(run, tmp, flow):
                                   r[2], "" if r[3] is None else " (DOS pitch %g)" % r[3]),
                               dict(variant=variant, conf=lines, argv=m[4], files_mixed=m[2], files_option_only=r[2]))
     os.chdir(tmp)
+
+
+# --------------------------------------------------------------------------
+# description invariance: the input cell given with relabelled (left-handed) lattice vectors
+# --------------------------------------------------------------------------
+
+def lefthanded_flows(run, tmp, rng, thorough):
+    """Conventional NaCl given once as it is and once with relabelled lattice vectors (always a det -1 relabelling:
+    a left-handed cell), as POSCAR for `phonopy` and as phonopy_params.yaml for `phonopy-load`, with --pa auto / F,
+    NAC from a BORN file, q-points, an odd mesh with thermal properties, a band path.
+    (1) every output file equals the library call on the same (left-handed) cell [C18: a failing input];
+    (2) the spectra / thermal properties of the two descriptions agree at the same Cartesian q
+        [a library matter when (1) holds: recorded as broken description invariance, not as a C18 violation]."""
+    from phonopy import Phonopy
+    from phonopy.file_IO import parse_BORN, parse_FORCE_SETS
+    from phonopy.interface.phonopy_yaml import PhonopyYaml
+    from phonopy.phonon.band_structure import get_band_qpoints
+
+    cell0, _ = gen.make_cell("nacl")
+    # always one det -1 relabelling (left-handed cell) and one det +1 relabelling (non-reduced / permuted right-handed basis)
+    pick = [rng.choice(["swap12", "negate3", "invert"]), rng.choice(["shear", "cyclic"])] if not thorough else ["swap12", "negate3", "invert", "shear", "cyclic"]
+    pa = rng.choice(["auto", "F"])
+    qc = np.array([[0.013, 0.0, 0.0], [0.031, 0.047, 0.011], [0.09, 0.02, 0.05]])  # Cartesian q (1/Angstrom, without 2 pi)
+    band_c = np.array([[0.0, 0.0, 0.0], [0.08, 0.03, 0.0]])
+    z, eps = 1.1, 2.4
+
+    def fmt(v):
+        return ["%.15g" % x for x in np.ravel(v)]
+
+    def describe(cell, label, smat, pa):
+        """-> dict(freq=…, tprop=…) of the library on this description, after comparing every command output with it"""
+        fl = Flow(run, "lh-" + label, [1, 1, 1], tmp)
+        fl.cell = cell
+        os.chdir(fl.dir)
+        dimv = [str(x) for x in (np.diag(smat) if (smat == np.diag(np.diag(smat))).all() else smat.ravel())]
+        base = ["--dim"] + dimv + ["-c", "POSCAR", "--pa", pa]
+        write_poscar("POSCAR", cell)
+        try:
+            lib = Phonopy(cell, supercell_matrix=smat, primitive_matrix=pa, log_level=0)
+        except Exception as e:
+            return dict(lib_error="%s: %s" % (type(e).__name__, e), flow=fl)
+        lib.generate_displacements()
+        argv = ["-d"] + base
+        code, out, exc = run_main("phonopy", argv)
+        run.count("commands run", section="oracle")
+        run.count("relabelled input workflows: %s" % label.split("-")[0], section="oracle")
+        if cell.volume < 0 and exc is None and code == 1 and "right-hand rule" in out and not os.path.exists("phonopy_disp.yaml"):
+            # collect_cell_info refuses left-handed lattice vectors with a message (by design): the rejecting branch.
+            # The same must happen for a yaml input of the same cell, in both commands, and nothing may be written.
+            lib.save("lh_params.yaml", settings={"displacements": True})
+            for variant, av in (("load", ["lh_params.yaml", "--fc-calc", "traditional", "--qpoints", "0", "0", "0"]), ("phonopy", ["lh_params.yaml", "-d"])):
+                before = set(os.listdir("."))
+                c2, o2, e2 = run_main(variant, av)
+                run.count("commands run", section="oracle")
+                run.count("left-handed cell rejected with a message", section="oracle")
+                new_files = sorted(f for f in set(os.listdir(".")) - before if f in OUTPUTS)
+                if e2 is not None or c2 != 1 or "right-hand rule" not in o2 or new_files:
+                    run.violation("phonopy_script.main", "left-handed-input-not-rejected-consistently",
+                                  "`phonopy -d -c POSCAR` refuses the left-handed cell (%s) with a message, but `%s %s` on the yaml of the same cell %s" % (
+                                      label, variant, " ".join(av), "raises %s: %s" % (type(e2).__name__, e2) if e2 is not None else "exits with %r and writes %s" % (c2, new_files)),
+                                  dict(description=label, lattice=cell.cell.tolist(), argv=av))
+            return dict(rejected=True, flow=fl)
+        if exc is not None or code != 0:
+            run.violation("phonopy_script.main", "left-handed-input-command-fails",
+                          "%s (lattice vectors relabelled by %s, volume %.3f): `phonopy %s` %s, the library call Phonopy(cell, primitive_matrix=%r) succeeds" % (
+                              "NaCl conventional cell", label, cell.volume, " ".join(argv), "raises %s: %s" % (type(exc).__name__, exc) if exc is not None else "exits with %r: %s" % (code, out[-300:]), pa),
+                          dict(description=label, lattice=cell.cell.tolist(), argv=argv))
+            return dict(flow=fl)
+        py = PhonopyYaml()
+        py.read("phonopy_disp.yaml")
+        d_cli = np.array([[x["number"]] + list(x["displacement"]) for x in py.dataset["first_atoms"]], dtype=float)
+        d_lib = np.array([[x["number"]] + list(x["displacement"]) for x in lib.dataset["first_atoms"]], dtype=float)
+        fl.close("phonopy_disp.yaml displacements (%s)" % label, d_cli, d_lib, 1e-14, argv, klass="left-handed-input-differs-from-library")
+        sc = lib.supercell
+        fc = gen.pair_fc(sc, cutoff=4.5)
+        vs = []
+        for i, scd in enumerate(lib.supercells_with_displacements):
+            write_vasprun("vasprun.xml-%03d" % (i + 1), scd, -np.einsum("ijab,jb->ia", fc, scd.positions - sc.positions))
+            vs.append("vasprun.xml-%03d" % (i + 1))
+        if fl.cmd("phonopy", ["-f"] + vs, must=["FORCE_SETS"]) is None or fl.cmd("phonopy", ["-f"] + vs + ["--sp"], must=["phonopy_params.yaml"]) is None:
+            return dict(flow=fl)
+        prim = lib.primitive
+        q_red = (np.asarray(prim.cell) @ qc.T).T
+        b_red = (np.asarray(prim.cell) @ band_c.T).T
+        with open("BORN", "w") as w:
+            w.write("default\n" + " ".join("%.10f" % x for x in (np.eye(3) * eps).ravel()) + "\n")
+            for i in lib.primitive_symmetry.get_independent_atoms():
+                zz = z if prim.symbols[i] == "Na" else -z
+                w.write(" ".join("%.10f" % x for x in (np.eye(3) * zz).ravel()) + "\n")
+        lib.dataset = parse_FORCE_SETS(natom=len(sc), filename="FORCE_SETS")
+        lib.produce_force_constants(calculate_full_force_constants=False, fc_calculator="traditional")
+        nac = parse_BORN(lib.primitive, filename="BORN")
+        if "factor" not in nac:
+            from phonopy.interface.calculator import get_default_physical_units
+
+            nac["factor"] = get_default_physical_units(None)["nac_factor"]
+        lib.nac_params = nac
+
+        def results(ph):
+            ph.run_qpoints(q_red)
+            f = ph.get_qpoints_dict()["frequencies"].copy()
+            ph.run_mesh([3, 3, 3])
+            ph.run_thermal_properties(t_min=0, t_max=300, t_step=100, cutoff_frequency=0.05)
+            t = ph.get_thermal_properties_dict()
+            ph.run_band_structure(get_band_qpoints([b_red], npoints=5))
+            return f, np.c_[t["temperatures"], t["free_energy"], t["entropy"], t["heat_capacity"]], np.concatenate(ph.get_band_structure_dict()["frequencies"])
+
+        import phonopy
+
+        f_lib, tp_lib, bd_lib = results(lib)
+        # phonopy-load reads the dataset as printed in phonopy_params.yaml: its library counterpart is phonopy.load on that file
+        lib_load = results(phonopy.load("phonopy_params.yaml", primitive_matrix=pa, fc_calculator="traditional", symmetrize_fc=False, born_filename="BORN", log_level=0))
+        kl = "left-handed-input-differs-from-library"
+        results_of = {"phonopy": (f_lib, tp_lib, bd_lib), "load": lib_load}
+        for variant, head in (("phonopy", base + ["--nac"]), ("load", ["phonopy_params.yaml", "--fc-calc", "traditional", "--no-fc-symmetry", "--pa", pa])):
+            f_lib, tp_lib, bd_lib = results_of[variant]
+            argv = head + ["--qpoints"] + fmt(q_red)
+            if fl.cmd(variant, argv, must=["qpoints.yaml"]) is not None:
+                y = _yaml("qpoints.yaml")
+                fl.close_freq("qpoints.yaml frequencies with NAC (%s, %s)" % (label, variant), [[b["frequency"] for b in p["band"]] for p in y["phonon"]], f_lib, 2e-10, argv, klass=kl)
+            argv = head + ["--mesh", "3", "3", "3", "-t", "--tmax", "300", "--tstep", "100", "--cutoff-freq", "0.05"]
+            if fl.cmd(variant, argv, must=["thermal_properties.yaml"]) is not None:
+                tpf = np.array([[x["temperature"], x["free_energy"], x["entropy"], x["heat_capacity"]] for x in _yaml("thermal_properties.yaml")["thermal_properties"]])
+                fl.close("thermal_properties.yaml (%s, %s)" % (label, variant), tpf, tp_lib, 2e-7, argv, klass=kl)
+            argv = head + ["--band"] + fmt(b_red) + ["--band-points", "5"]
+            if fl.cmd(variant, argv, must=["band.yaml"]) is not None:
+                y = _yaml("band.yaml")
+                fl.close_freq("band.yaml frequencies with NAC (%s, %s)" % (label, variant), [[b["frequency"] for b in p["band"]] for p in y["phonon"]], bd_lib, 2e-10, argv, klass=kl)
+        run.cov["oracle"]["workflow comparisons: " + fl.name] = fl.nchecks
+        f_lib, tp_lib, bd_lib = results_of["phonopy"]
+        return dict(freq=np.sort(f_lib, axis=1), tprop=tp_lib, band=np.sort(bd_lib, axis=1), flow=fl, natom_prim=len(prim))
+
+    nviol = len(run.violations)
+    refs = {}
+    for name in pick:
+        M = gen.UNIMODULAR[name]
+        pa_n = "auto" if name == "shear" else pa  # the centring letters presuppose the conventional axes
+        if pa_n not in refs:
+            refs[pa_n] = describe(cell0, "identity-" + pa_n, np.eye(3, dtype=int), pa_n)
+        ref = refs[pa_n]
+        cellL, qmap, smap = gen.relabelled_cell(cell0, M)
+        res = describe(cellL, "%s-det%+d" % (name, int(round(np.linalg.det(np.array(M))))), smap(np.eye(3, dtype=int)), pa_n)
+        run.case(("left-handed", name, pa), nontrivial=True)
+        if res.get("rejected"):
+            continue
+        if "lib_error" in res:
+            run.broke("description-invariance", "the library rejects NaCl with lattice vectors relabelled by %s (primitive_matrix=%r): %s — the command cannot be compared (C04/C08 matter)" % (
+                name, pa, res["lib_error"]))
+            continue
+        if "freq" not in res or "freq" not in ref:
+            continue
+        # (2) the two descriptions of the same crystal: the same physical quantities
+        for key, tol, what in (("freq", 1e-6, "frequencies with NAC at the same Cartesian q"), ("band", 1e-6, "band frequencies"), ("tprop", 1e-5, "thermal properties")):
+            a, b = ref[key], res[key]
+            if key == "band" and a.shape == b.shape and len(a) > 1:
+                # the Gamma end of the path with NAC depends on how the limiting direction is taken in each basis
+                # (a library matter, C08): recorded, not compared
+                run.cov["oracle"]["description invariance: |difference| at the Gamma end of the band path with NAC (%s)" % name] = float(np.abs(a[0] - b[0]).max())
+                a, b = a[1:], b[1:]
+            run.count("description invariance comparisons", section="oracle")
+            ok = a.shape == b.shape and bool(np.all((np.abs(a - b) <= tol * max(1.0, np.abs(a).max())) | ((np.abs(a) < 1e-4) & (np.abs(b) < 1e-4))))
+            if not ok:
+                msg = "NaCl with lattice vectors relabelled by %s (--pa %s): %s differ from the original description by %s" % (
+                    name, pa, what, "shape %s vs %s" % (a.shape, b.shape) if a.shape != b.shape else "%.3g" % float(np.abs(a - b).max()))
+                # command and library agree on each description (checked above), so this is the library's description
+                # dependence (C04 / C08), not a front-end defect
+                run.broke("description-invariance", msg + (" [commands equal the library on both descriptions]" if len(run.violations) == nviol else ""))
+    os.chdir(tmp)
